@@ -90,6 +90,16 @@ CHECKS = {
               "without AllowInvalidUTF8, and unquoted again. All literals over four escape alphabets are replayed on AppendUnquote, decoder tokens and Unmarshal. Random strings are validated by TLC."),
         note="PreserveRawStrings passthrough is part of C12's Format check (Format.tla!ReformatLit); bounded-exhaustive plus sampled.",
         design_ref="5 (C11), 4.4"),
+    "C19": dict(
+        technique="TLA+ option store with setters and JoinOptions; TLC-checked grouping/last-wins/V2-cancels laws over all setter sequences; exhaustive replay on GetOption under 7 groupings; TLC trace validation of behavioural clauses (irrelevant options, call-scoped options, v1 == v2+DefaultOptionsV1)",
+        text=("Options.tla models JoinOptions/GetOption as a map where later entries override earlier ones, with the composite setters made explicit. TLC proves for every sequence (all 73 "
+              "constructor/argument pairs up to length 2, 20 class representatives up to length 3/4) that flat, joined, left-/right-nested and pairwise groupings give the same store, that the "
+              "last setter wins and that DefaultOptionsV2 cancels the v1 options; the harness builds each grouping with the real constructors (also through NewEncoder/NewDecoder) and compares "
+              "GetOption for all 34 keys. Random sequences with probe values/texts are executed for the behavioural clauses and validated by TLC: separately == joined == nested results; setters "
+              "touching only keys the documentation marks as not affecting the operation change nothing; coder options equal Eval(A) before and after MarshalEncode/UnmarshalDecode with extra "
+              "options on success, error and panic, and the probe's output is what Eval(A ++ B) prescribes; v1.Marshal/Unmarshal equal v2 with DefaultOptionsV1."),
+        note="The probe output model covers StringifyNumbers/FormatNil*AsNull/OmitZeroStructFields; other option effects are compared relationally (equal results), not against a predicted value.",
+        design_ref="5 (C19), 4.5"),
     "C20": dict(
         technique="depth limit as the MaxD parameter of the TLA+ automaton/Decoder/Encoder/Format models (TLC theorem with MaxD=3; real constant evaluated by TLC on logged executions); TLC-decided cycle reachability on logged Go heaps; crash-isolated drivers",
         text=("Texts, call programs and Go values nested 9999..10002 deep (arrays, objects, mixes; depth reached by tokens, by one value, or split) are executed on every path - token reads, "
